@@ -35,7 +35,7 @@ using namespace Qentem;
 #endif
 typedef CHAR C;
 typedef unsigned long long u64;
-enum : unsigned { CAP = 40 };
+enum : unsigned { CAP = 24 };
 struct FS : FixedStream<C, CAP> {     // see C10_int.cpp: plain `char` arguments must convert like in StringStream
     void operator+=(C c) { FixedStream<C, CAP>::operator+=(c); }
 };
@@ -76,6 +76,10 @@ static void draw(In &in) {
     }
 }
 static void fill(FS &s, const In &in) {
+    // the bytes beyond the stream's length are arbitrary but fixed (stale content of a reused buffer), so that a read past
+    // the end is replayable
+    unsigned g = 0;
+    while (g < CAP) { s.buf[g] = vf_any<C>(); ++g; }
     if (in.pl >= 1U) s += in.p0;
     if (in.pl >= 2U) s += in.p1;
     unsigned i = 0;
@@ -155,6 +159,15 @@ extern "C" void h_fixed() {
     const bool tie_lead = (MODE == 2) && in.fl > in.p && R.tie && NDIG < in.fl;
     // (4) precision 0, V < 1 rounding up to 1: nothing / a lone point is printed
     const bool prec0_one = (MODE == 2) && in.p == 0U && R.m == 1U;
+    // (5) the rounding digit is the top digit of the run, an exact half, nothing sticky: the parity is read from the unit
+    //     after the end of the stream content (0.5 at precision 0)
+    const bool past_end = in.fl > in.p && in.fl - in.p == NDIG && R.tie && !(NDIG < in.fl);
+#ifdef KF_EXCL_C10_round_reads_past_end
+    vf_assume(!past_end);
+#endif
+#ifdef KF_ONLY_C10_round_reads_past_end
+    vf_assume(past_end);
+#endif
 #ifdef KF_EXCL_C10_prec0_dot
     vf_assume(!prec0_dot);
 #endif
@@ -190,5 +203,137 @@ extern "C" void h_fixed() {
     unsigned i = vf_u8();
     vf_assume(i < want.n);
     vf_assert(s.First()[in.pl + i] == want.t[i], 5);
+    vf_witness();
+}
+
+// ---- Default format ("%.{p}g") ----------------------------------------------------------------------------------------
+// Call-site model (Digit.hpp:758-833, Default): cd = digits(2^|e|);
+//   MODE 0  V >= 1 printed without fraction digits (integer-valued, or cd > p): fl = 0, the run is floor(V / 10^drop) with
+//           drop = cd > p ? cd - (p+1) : 0, NDIG = I - drop, I in {cd, cd+1}; sticky = (drop != 0) is what the call site passes
+//   MODE 1  V >= 1, cd <= p, fraction present: 1 <= fl <= p - cd + 1, sticky => fl = p - cd + 1, I = NDIG - fl in {cd, cd+1}
+//   MODE 2  V < 1: as for Fixed
+// Oracle: P = max(p,1) significant digits, round-half-even on the run, X = decimal exponent after rounding, trailing
+// zeros removed; scientific form d[.ddd]e(+|-)XX iff X < -4 or X >= P, else positional.
+#ifndef DROPMAX
+#define DROPMAX 3
+#endif
+struct TxtD { C t[NDIG + PMAX + 16]; unsigned n; };
+extern "C" void h_default() {
+    In in;
+    in.pl = vf_u8(); in.p0 = vf_any<C>(); in.p1 = vf_any<C>();
+    in.p = vf_u8(); in.fl = vf_u8(); in.cd = vf_u8(); in.ru = (vf_u8() & 1U) != 0U;
+    vf_assume(in.pl <= 2U && in.p <= PMAX && in.cd >= 1U);
+    {
+        unsigned i = 0;
+        while (i < NDIG) { in.d[i] = vf_any<C>(); vf_assume(is_digit(in.d[i])); ++i; }
+    }
+    vf_assume(in.d[NDIG - 1U] != C('0'));
+    unsigned drop = 0;
+    if (MODE == 0) {
+        drop = (in.cd > in.p) ? (in.cd - (in.p + 1U)) : 0U;
+        vf_assume(drop <= DROPMAX && in.fl == 0U && (in.cd == NDIG + drop || in.cd + 1U == NDIG + drop) && (in.ru == (drop != 0U)));
+    } else if (MODE == 1) {
+        vf_assume(in.cd <= in.p && in.fl >= 1U && in.fl <= in.p - in.cd + 1U && in.fl < NDIG && (!in.ru || in.fl == in.p - in.cd + 1U));
+        vf_assume(in.cd == NDIG - in.fl || in.cd + 1U == NDIG - in.fl);
+    } else {
+        vf_assume(in.cd <= CDMAX && in.fl <= in.cd + in.p + 1U && (!in.ru || in.fl == in.cd + in.p + 1U));
+        vf_assume(NDIG <= in.fl && (NDIG + in.cd == in.fl + 1U || NDIG + in.cd == in.fl + 2U));
+    }
+    if (MODE != 0 && !in.ru) {
+        const unsigned d0 = digit_at(in, 0), d1 = digit_at(in, 1), d2 = digit_at(in, 2);
+        vf_assume(d0 == 5U);
+        if (in.fl >= 2U) vf_assume(d1 == 2U || d1 == 7U);
+        if (in.fl >= 3U) vf_assume((d1 == 2U) ? (d2 == 1U || d2 == 6U) : (d2 == 3U || d2 == 8U));
+    }
+    // ---- reference ----
+    const unsigned P = (in.p == 0U) ? 1U : in.p;
+    unsigned char g[NDIG + 1];          // significant digits after rounding, most significant first
+    unsigned L = NDIG;                  // their count
+    int X = int(NDIG) - 1 - int(in.fl) + int(drop);
+    {
+        unsigned i = 0;
+        while (i < NDIG) { g[i] = (unsigned char)digit_at(in, NDIG - 1U - i); ++i; }
+        g[NDIG] = 0;
+    }
+    bool lost = false;
+    if (NDIG > P) {
+        const unsigned rd = g[P];
+        bool lower = in.ru;
+        unsigned j = P + 1U;
+        while (j < NDIG) { if (g[j] != 0) lower = true; ++j; }
+        lost = (rd == 5U) && lower && !in.ru;      // a non-zero digit below the rounding digit inside the run, sticky not set
+        const bool up = (rd > 5U) || (rd == 5U && (lower || (g[P - 1U] & 1U) != 0U));
+        L = P;
+        if (up) {
+            unsigned i = P;
+            bool carry = true;
+            while (carry && i > 0U) { --i; if (g[i] == 9) g[i] = 0; else { ++g[i]; carry = false; } }
+            if (carry) { g[0] = 1; ++X; }      // 99..9 -> 100..0 : digits after the 1 are already 0
+        }
+    }
+    while (L > 1U && g[L - 1U] == 0) --L;     // %g removes trailing zeros
+    TxtD w; w.n = 0;
+    const bool sci = (X < -4) || (X >= int(P));
+    if (sci) {
+        w.t[w.n] = C('0' + g[0]); ++w.n;
+        if (L > 1U) {
+            w.t[w.n] = C('.'); ++w.n;
+            unsigned i = 1;
+            while (i < L) { w.t[w.n] = C('0' + g[i]); ++w.n; ++i; }
+        }
+        w.t[w.n] = C('e'); ++w.n;
+        w.t[w.n] = (X < 0) ? C('-') : C('+'); ++w.n;
+        const unsigned ax = unsigned(X < 0 ? -X : X);
+        w.t[w.n] = C('0' + (ax / 10U) % 10U); ++w.n;
+        w.t[w.n] = C('0' + ax % 10U); ++w.n;
+    } else if (X >= 0) {
+        unsigned i = 0;
+        while (i <= unsigned(X)) { w.t[w.n] = (i < L) ? C('0' + g[i]) : C('0'); ++w.n; ++i; }
+        if (L > unsigned(X) + 1U) {
+            w.t[w.n] = C('.'); ++w.n;
+            while (i < L) { w.t[w.n] = C('0' + g[i]); ++w.n; ++i; }
+        }
+    } else {
+        w.t[w.n] = C('0'); ++w.n;
+        w.t[w.n] = C('.'); ++w.n;
+        unsigned z = unsigned(-X) - 1U;
+        while (z > 0U) { w.t[w.n] = C('0'); ++w.n; --z; }
+        unsigned i = 0;
+        while (i < L) { w.t[w.n] = C('0' + g[i]); ++w.n; ++i; }
+    }
+    // ---- known finding classes ----
+    const bool d_prec0 = (in.p == 0U);                                   // precision 0 is not treated as 1
+    // positional form whose integer part ends in zeros that are not significant digits any more, low estimate cd = I-1
+    const bool d_trim = (MODE == 1) && !sci && X >= 0 && L < unsigned(X) + 1U && (in.cd + 1U == NDIG - in.fl);
+#ifdef KF_EXCL_C10_trim_integer_zeros
+    vf_assume(!d_trim);
+#endif
+#ifdef KF_ONLY_C10_trim_integer_zeros
+    vf_assume(d_trim);
+#endif
+    // the run is two digits longer than the precision (digit-count estimate one short): the digit below the rounding
+    // digit is not folded into the sticky flag, values just above a tie round down (12455 at 3 -> 1.24e+04)
+#ifdef KF_EXCL_C10_default_sticky_lost
+    vf_assume(!lost);
+#endif
+#ifdef KF_ONLY_C10_default_sticky_lost
+    vf_assume(lost);
+#endif
+#ifdef KF_EXCL_C10_default_prec0
+    vf_assume(!d_prec0);
+#endif
+#ifdef KF_ONLY_C10_default_prec0
+    vf_assume(d_prec0);
+#endif
+    FS s;
+    fill(s, in);
+    Digit::formatStringNumberDefault(s, SizeT(in.pl), in.p, in.cd, in.fl, MODE != 2, in.ru);
+    vf_assert(!s.overflow && s.Length() >= in.pl, 1);
+    if (in.pl >= 1U) vf_assert(s.First()[0] == in.p0, 2);
+    if (in.pl >= 2U) vf_assert(s.First()[1] == in.p1, 3);
+    vf_assert(s.Length() - in.pl == w.n, 4);
+    unsigned i = vf_u8();
+    vf_assume(i < w.n);
+    vf_assert(s.First()[in.pl + i] == w.t[i], 5);
     vf_witness();
 }
